@@ -166,6 +166,51 @@ theorem refs_resolve_tl (root : Str) (lists : List Str) (rows : List Cells) (set
     · injection h with h; subst h
       exact refs_resolve_n root lists _ settings o' ho
 
+theorem sibsEach_append' (a b : List Item) : sibsEach (a ++ b) = (sibsEach a && sibsEach b) := by
+  induction a with
+  | nil => simp [sibsEach]
+  | cons x xs ih => simp [sibsEach, ih, Bool.and_assoc]
+
+/-- **The generated meta block has pairwise distinct children**: in every accepted form the children of
+    `/root/meta` — one `audit` per audit row of the sheet wherever it is written, `instanceID`, `instanceName` —
+    have pairwise different names (ignoring case). -/
+theorem meta_children_unique (rows : List Cells) (settings : Cells) (items : List Item)
+    (h : sibsOK (withMeta rows settings items) = true) :
+    ((metaKids rows settings).map fun d => lowerAscii d.name).Nodup := by
+  unfold sibsOK at h
+  simp only [Bool.and_eq_true] at h
+  have he := h.2
+  unfold withMeta at he
+  simp only [] at he
+  split at he
+  · rename_i hm
+    have : metaKids rows settings = [] := by simpa using hm
+    rw [this]; simp
+  · rw [sibsEach_append'] at he
+    simp only [Bool.and_eq_true, sibsEach, sibsItem, decide_eq_true_eq, Bool.and_true] at he
+    have := he.2.1
+    simpa [List.map_map, Function.comp_def, lname, Item.name] using this
+
+/-- **At most one audit row**: a sheet with two or more (enabled) `audit` rows — at any depth, they all become
+    siblings named `audit` in the meta block — is never accepted by the numbered / table-list pipeline (what
+    seeded change C02-7 broke: validation skipped for the bodyless meta section). -/
+theorem at_most_one_audit (root : Str) (lists : List Str) (nrows : List (Nat × Cells)) (settings : Cells) (o : FormOut)
+    (h : formOutN root lists nrows settings = .ok o) :
+    ((nrows.map (·.2)).filter isAuditRow).length ≤ 1 := by
+  have hs := siblings_unique_n root lists nrows settings o h
+  have hn := meta_children_unique _ _ _ hs
+  unfold metaKids at hn
+  simp only [List.map_append, List.map_map] at hn
+  have h1 := (List.nodup_append.mp hn).1
+  generalize (nrows.map (·.2)).filter isAuditRow = l at h1
+  match l, h1 with
+  | [], _ => simp
+  | [_], _ => simp
+  | a :: b :: rest, h1 =>
+    exfalso
+    simp only [List.map_cons] at h1
+    exact (List.nodup_cons.mp h1).1 (List.Mem.head _)
+
 /-- **Ambiguity is rejected**: if some level of the tree has two siblings whose names differ at
     most by case, validation fails (with a PyXFormError naming the element). -/
 theorem ambiguous_rejected (root : Str) (kids : List Item) (h : sibsOK kids = false) :
@@ -209,5 +254,17 @@ def exTLRows : List Cells := [
 example : (match TableList.formOutT "data".toList ["yn".toList] exTLRows [] with
     | .ok o => (o.binds ++ o.body).all (resolves o.inst) && o.body.length == 4 && o.binds.length == 4
     | .error _ => false) = true := by decide +kernel
+
+-- two audit rows at different depths: rejected; one: accepted
+def exAudit2 : List Cells := [
+  [("type".toList, "audit".toList)],
+  [("type".toList, "begin group".toList), ("name".toList, "g".toList), ("label".toList, "G".toList)],
+  [("type".toList, "audit".toList), ("name".toList, "audit".toList)],
+  [("type".toList, "text".toList), ("name".toList, "a".toList), ("label".toList, "A".toList)],
+  [("type".toList, "end group".toList)]]
+example : (match TableList.formOutT "data".toList [] exAudit2 [] with
+    | .error (.err (.dupSibling _ _)) => true | _ => false) = true := by decide +kernel
+example : (match TableList.formOutT "data".toList [] (exAudit2.drop 1) [] with
+    | .ok o => (o.binds.map xpathStr).contains "/data/meta/audit".toList | _ => false) = true := by decide +kernel
 
 end Pyxv.C02
